@@ -38,7 +38,11 @@ def main():
         seed = int(os.environ.get("VERIF_SEED", "0") or 0)
     except ValueError:
         seed = 0
-    mod = importlib.import_module("props." + pid.lower())
+    try:
+        mod = importlib.import_module("props." + pid.lower())
+    except ImportError as e:
+        C.log("no check for %s: %s" % (pid, e))
+        return 2
     rep = C.Report(pid, tier, seed)
     ctx = Ctx()
     ctx.id, ctx.tier, ctx.seed, ctx.rep = pid, tier, seed, rep
